@@ -71,6 +71,15 @@ pub fn judge_case(c: &Case) -> Obs {
         expect_asm.push((a as u16, text_at(a)));
     }
     lines.push("echo ENDASM".into());
+    // half of the sessions first offer every label to `eval` in front of an instruction (a source
+    // line pasted verbatim): that is not one instruction, it is refused, and the label must stay
+    // where the assembler put it (round p)
+    let pasted = (hash_of(&(&r.text, raw.stack)) >> 7) & 1 == 0;
+    if pasted {
+        for (name, _) in img.labels.iter().take(10) {
+            lines.push(format!("eval {name} add r0 r0 #0"));
+        }
+    }
     // labels: goto L+-k and print L
     let user = |a: i64| a >= orig as i64 && a < 0xFE00;
     let mut expect_goto: Vec<(String, Option<u16>)> = Vec::new();
@@ -134,6 +143,9 @@ pub fn judge_case(c: &Case) -> Obs {
         }
     }
     let multibyte = !r.text.is_ascii();
+    if pasted && !img.labels.is_empty() {
+        obs.label("labelled-lines-offered-to-eval-first");
+    }
     if multiword {
         obs.label("multi-word-directive");
     }
